@@ -342,7 +342,23 @@ class Planner:
                 if key not in script:
                     # nested parse: usually the same module, a colliding text
                     nmid = mid if fr.random() < 0.7 else fr.choice(sorted(self.infos))
-                    if nmid == mid and fr.random() < 0.35:
+                    sub = None
+                    st = getattr(self, '_st', None)
+                    if ('compile' in kinds and depth == 0 and st is not None and st['next_id'] < 12 * self.scale
+                            and fr.random() < 0.15):
+                        # the callback CONSTRUCTS a grammar in the middle of the parse: a sub-grammar of the very module whose
+                        # call is in progress, a new generation of that module's NAME, or something unrelated
+                        x = fr.random()
+                        pp = m if (x < 0.4 and m.name and m.gen is not None) else None
+                        pv = m if (0.4 <= x < 0.65 and m.name and m.parent is None) else None
+                        got = self._compile_ops(self._ci, [k for k in kinds if k != 'reenter'], prefer_parent=pp, prefer_victim=pv,
+                                                single=True)
+                        if got:
+                            sub = got[0]
+                            sub['nested_in_parse'] = True
+                    if sub is not None:
+                        pass
+                    elif nmid == mid and fr.random() < 0.35:
                         # the callback passes on what it was handed: Sub.parse(_text, _pos)
                         sub = self.gen_nested_on_outer_text(op, p)
                     else:
@@ -415,7 +431,8 @@ class Planner:
         new['_steps'] = rec['steps']
         return new
 
-    def gen_compile(self, kinds, next_id, forbidden_names, client_names, prefer_foreign=False, prefer_child=False):
+    def gen_compile(self, kinds, next_id, forbidden_names, client_names, prefer_foreign=False, prefer_child=False,
+                    prefer_parent=None, prefer_victim=None):
         """A Grammar() construction as an operation of a client."""
         r = self.wr
         # a module whose name (or an ancestor's name) has been re-bound can still be parsed with,
@@ -447,6 +464,16 @@ class Planner:
                    and not getattr(m, 'binary', False)]
         named_roots = parents
         choice = r.random()
+        if prefer_parent is not None and prefer_parent in parents:
+            s, g = spec.gen_child(r, prefer_parent.gen)
+            info = ModInfo(next_id, mod_name(next_id), prefer_parent.id, s, g, parent=prefer_parent)
+            info.fresh_name = True
+            return [({'op': 'compile', 'mod': next_id, 'desc': info.desc, 'name': info.name, 'extends': info.extends}, info)]
+        if prefer_victim is not None and prefer_victim in victims:
+            s, g = spec.gen_root(r, True, n_rules=r.randint(2, 4))
+            info = ModInfo(next_id, prefer_victim.name, None, s, g)
+            info.victim = prefer_victim
+            return [({'op': 'compile', 'mod': next_id, 'desc': info.desc, 'name': info.name, 'extends': None}, info)]
         if foreign and (prefer_foreign or r.random() < 0.25):
             parent = r.choice(sorted(foreign, key=lambda m: m.id))
             s, g = spec.gen_child(r, parent.gen)
@@ -523,6 +550,51 @@ class Planner:
             op['fails'] = True
         return [(op, info)]
 
+    def _compile_ops(self, ci, kinds, prefer_foreign=False, prefer_child=False, prefer_parent=None, prefer_victim=None,
+                     single=False):
+        """Construction operation(s) for client ci with all the bookkeeping (names, chains, texts, probes)."""
+        st = self._st
+        wr = self.wr
+        forbidden = set()
+        for cj, names in st['extended_by'].items():
+            if cj != ci:
+                forbidden |= names
+        for cj, names in st['defined_by'].items():
+            if cj != ci:
+                forbidden |= names
+        got = self.gen_compile(kinds, st['next_id'], forbidden, ci, prefer_foreign=prefer_foreign, prefer_child=prefer_child,
+                               prefer_parent=prefer_parent, prefer_victim=prefer_victim)
+        if single and len(got) != 1:
+            return []
+        out = []
+        failed = False
+        for op, info in got:
+            if failed:
+                break
+            next_id = st['next_id']
+            # the child's parent name must not be re-bound by another client
+            anc = info.parent
+            while anc is not None:
+                st['extended_by'].setdefault(ci, set()).add(anc.name)
+                anc = anc.parent
+            if info.name:
+                st['defined_by'].setdefault(ci, set()).add(info.name)
+            ok = not isinstance(U.chain_codes(info.chain), tuple)
+            if op.get('fails') or not ok:
+                op['fails'] = True
+                failed = True
+            out.append(op)
+            self.chains[next_id] = info.chain
+            if ok and not op.get('fails'):
+                if getattr(info, 'victim', None) is not None:
+                    info.victim.shadowed = True
+                info.texts = make_texts(wr, info, n=2)
+                info.owner = ci
+                self.infos[next_id] = info
+                st['suspects'][next_id] = [info.wire(t) for t in info.texts[:10]]
+            st['next_id'] += 1
+        return out
+
     def plan(self, index, verif_seed):
         ur, wr, fr, sr = self.ur, self.wr, self.fr, self.sr
         infos = self.universe_fn(ur)
@@ -552,13 +624,13 @@ class Planner:
         ht = self.infos[hot].texts
         self.shared_texts = set(wr.sample(ht, min(len(ht), 2))) if (ht and wr.random() < 0.3) else set()
         clients = []
-        suspects = {}
-        next_id = max(self.infos) + 1
         # names (re)defined by compile operations, per client, to keep the one documented bound:
         # a name is never re-bound while another client's compile extends that same name
-        defined_by = {}
-        extended_by = {}
+        self._st = {'next_id': max(self.infos) + 1, 'defined_by': {}, 'extended_by': {}, 'suspects': {}, 'nested_probes': []}
+        suspects = self._st['suspects']
         for ci in range(n_clients):
+            self._ci = ci
+            self._kinds = kinds
             ops = []
             n_ops = wr.randint(1, 6 * self.scale)
             for _ in range(n_ops):
@@ -570,41 +642,11 @@ class Planner:
                     ops.append(self.gen_parse(ops[0]['mod'], kinds))
                     continue
                 live = sorted(self.infos)
-                if 'compile' in kinds and x < 0.12 and next_id < 12 * self.scale:
-                    forbidden = set()
-                    for cj, names in extended_by.items():
-                        if cj != ci:
-                            forbidden |= names
-                    for cj, names in defined_by.items():
-                        if cj != ci:
-                            forbidden |= names
-                    failed = False
-                    for op, info in self.gen_compile(kinds, next_id, forbidden, ci,
-                                                     prefer_foreign=(race and ci == 1 and not ops and wr.random() < 0.7),
-                                                     prefer_child=(race and ci == 0 and not ops and wr.random() < 0.6)):
-                        if failed:
-                            break
-                        # the child's parent name must not be re-bound by another client
-                        anc = info.parent
-                        while anc is not None:
-                            extended_by.setdefault(ci, set()).add(anc.name)
-                            anc = anc.parent
-                        if info.name:
-                            defined_by.setdefault(ci, set()).add(info.name)
-                        ok = not isinstance(U.chain_codes(info.chain), tuple)
-                        if op.get('fails') or not ok:
-                            op['fails'] = True
-                            failed = True
-                        ops.append(op)
-                        self.chains[next_id] = info.chain
-                        if ok and not op.get('fails'):
-                            if getattr(info, 'victim', None) is not None:
-                                info.victim.shadowed = True
-                            info.texts = make_texts(wr, info, n=2)
-                            info.owner = ci
-                            self.infos[next_id] = info
-                            suspects[next_id] = [info.wire(t) for t in info.texts[:10]]
-                        next_id += 1
+                if 'compile' in kinds and x < 0.12 and self._st['next_id'] < 12 * self.scale:
+                    self._ci = ci
+                    ops.extend(self._compile_ops(ci, kinds,
+                                                 prefer_foreign=(race and ci == 1 and not ops and wr.random() < 0.7),
+                                                 prefer_child=(race and ci == 0 and not ops and wr.random() < 0.6)))
                     continue
                 if 'scramble' in kinds and x < 0.2 and ops and ops[-1]['op'] == 'parse':
                     ops.append({'op': 'scramble'})
@@ -730,7 +772,7 @@ class Planner:
                 u = sr.choice(body)
             pol = {'kind': 'race', 'u': u, 'own_logic_steps': len(own), 'module_body_steps': len(body), 'steps': steps0}
         pol['seed'] = rngm.derive('policy', self.seed)
-        watch_lib = any(op['op'] == 'compile' for ops in clients for op in ops)
+        watch_lib = any(op['op'] == 'compile' for op in all_ops({'clients': clients}))
         return {
             'prop': self.prop, 'verif_seed': verif_seed, 'index': index, 'run_seed': self.seed,
             'universe': [m.plan_entry() for m in infos],
@@ -776,6 +818,18 @@ def make_policy(pol, schedule=None):
 
 # ------------------------------------------------------------------------------- execution
 
+def all_ops(plan):
+    """Every operation of the plan, nested ones (scripts of callbacks) included."""
+    def walk(op):
+        yield op
+        for act in (op.get('script') or {}).values():
+            if isinstance(act, dict) and 'nest' in act:
+                yield from walk(act['nest'])
+    for ops in plan['clients']:
+        for op in ops:
+            yield from walk(op)
+
+
 def static_chains(plan):
     """mod id -> chain of descriptions, from the plan alone (universe + compile operations)."""
     chains = {}
@@ -785,7 +839,7 @@ def static_chains(plan):
             continue
         chains[m['id']] = (chains[m['extends']] if m['extends'] is not None else ()) + (m['desc'],)
     # compile operations are resolved in client order; ids are unique
-    pending = [op for ops in plan['clients'] for op in ops if op['op'] == 'compile']
+    pending = [op for op in all_ops(plan) if op['op'] == 'compile']
     for _ in range(len(pending) + 1):
         for op in pending:
             if op['mod'] in chains:
